@@ -153,6 +153,13 @@ func (r *Report) solveAll() {
 					o.Result = runSolver(context.Background(), solverSpecs[0], file, 2, r.Seed)
 					continue
 				}
+				if o.Canary {
+					// canaries of known findings are expected NOT to discharge: one solver, short limit
+					file := filepath.Join(r.cfg.TmpDir, sanitizeFile(o.Name)+".smt2")
+					_ = os.WriteFile(file, []byte(text), 0o644)
+					o.Result = runSolver(context.Background(), solverSpecs[0], file, quick, r.Seed)
+					continue
+				}
 				o.Result = Solve(text, o.Name, SolveOpts{QuickSec: quick, FullSec: full, Seed: r.Seed, Dir: r.cfg.TmpDir, Induction: o.Induct})
 				if r.cfg.Verbose {
 					fmt.Fprintf(os.Stderr, "  %-8s %-6s %5dms %s\n", o.Result.Status, o.Result.Solver, o.Result.Ms, o.Name)
